@@ -676,9 +676,12 @@ func checkC06Post(r *Report, p *Prog) {
 			}
 			n++
 			ok2 := false
-			if calleeIs(c, "io.Copy") {
+			if calleeIs(c, "io.Copy") || calleeIs(c, "(*bytes.Buffer).WriteTo") {
 				// source buffer was filled by Template.Execute(buf, form) with form from PostBinding under err == nil
 				src := c.Call.Args[1]
+				if calleeIs(c, "(*bytes.Buffer).WriteTo") {
+					src = c.Call.Args[0]
+				}
 				for _, ex := range methodCallsOn(wr, "(*html/template.Template).Execute") {
 					if derivesFrom(src, rootIface(ex.Call.Args[1]), 0) || rootIface(src) == rootIface(ex.Call.Args[1]) {
 						dataAP := f2.AP(ex.Call.Args[2])
